@@ -1,0 +1,62 @@
+//go:build verif
+
+// Verification contracts for package netconf (comment-only; compiled only with -tags verif).
+// Read by /verif/cmd/gvc; see /verif/DESIGN.md for the contract language.
+
+package netconf
+
+// ---------------------------------------------------------------------------
+// C20: a well-formed NETCONF reply is transformed into notifications or refused with an error, never with a panic.
+// The document library (etree) is assumed: element lists hold no nil elements, FindElement may return nil.
+
+//@ extern (*github.com/beevik/etree.Element).ChildElements
+//@   noeffect
+//@   ensures no_nil_children: forall(i, 0, len(result), result[i] != nil)
+//@ extern (*github.com/beevik/etree.Element).FindElement
+//@   noeffect
+//@ extern (*github.com/beevik/etree.Element).Text
+//@   noeffect
+//@ extern (*github.com/beevik/etree.Document).Root
+//@   pure
+
+// schema responses: the key list of a container schema holds no nil entries (assumed about the schema server)
+//@ iface (datastore/clients/schema.SchemaClientBound).GetSchemaSdcpbPath
+//@   noeffect
+//@   ensures schema_or_error: r1 == nil ==> r0 != nil && r0.Schema != nil
+//@   ensures keys_not_nil: r0 != nil && r0.GetSchema().GetContainer() != nil ==> forall(i, 0, len(r0.GetSchema().GetContainer().Keys), r0.GetSchema().GetContainer().Keys[i] != nil)
+
+//@ pred pelemsOK(ps) = forall(i, 0, len(ps), ps[i] != nil)
+
+//@ func (*XML2sdcpbConfigAdapter).Transform
+//@   props C20
+//@   requires x != nil && x.schemaClient != nil && doc != nil
+
+//@ func (*XML2sdcpbConfigAdapter).transformRecursive
+//@   props C20
+//@   requires x != nil && x.schemaClient != nil && e != nil && result != nil && tc != nil && pelemsOK(pelems)
+
+//@ func (*XML2sdcpbConfigAdapter).transformContainer
+//@   props C20
+//@   requires x != nil && x.schemaClient != nil && e != nil && result != nil && len(pelems) >= 1 && pelemsOK(pelems)
+//@   requires sr != nil && sr.GetSchema().GetContainer() != nil ==> forall(i, 0, len(sr.GetSchema().GetContainer().Keys), sr.GetSchema().GetContainer().Keys[i] != nil)
+//@   loop 3 invariant len(cPElem) == $n && pelemsOK(cPElem) && pelemsOK(pelems) && baseof(cPElem) != baseof(pelems)
+//@   loop 0 invariant len(cPElem) == $n_loop3 && pelemsOK(cPElem) && pelemsOK(pelems) && baseof(cPElem) != baseof(pelems) && npe != nil && npe.Key != nil
+//@   loop 1 invariant len(cPElem) == len(pelems) && pelemsOK(cPElem)
+//@   loop 2 invariant len(cPElem) == len(pelems) && pelemsOK(cPElem)
+
+//@ func (*XML2sdcpbConfigAdapter).transformField
+//@   props C20
+//@   requires x != nil && x.schemaClient != nil && e != nil && result != nil && pelemsOK(pelems)
+
+//@ func (*XML2sdcpbConfigAdapter).transformLeafList
+//@   props C20
+//@   requires e != nil && tc != nil && len(pelems) >= 1 && pelemsOK(pelems)
+
+//@ func (*TransformationContext).AddLeafListEntry
+//@   props C20
+//@   requires tc != nil
+//@ func (*TransformationContext).Close
+//@   props C20
+//@   requires tc != nil
+
+//@ sweep C20: StringElementToTypedValue valueAsString pathElem2EtreePath pathElem2XPath getNamespaceFromGetSchemaResponse
